@@ -17,9 +17,9 @@ import (
 
 func plan(tier string, seed int64) []sup.Batch {
 	nExh := len(exhPlans())
-	nRand, nBig := 2400, 0
+	nRand, nBig := 8000, 400
 	if tier == "thorough" {
-		nRand, nBig = 240000, 12000
+		nRand, nBig = 400000, 24000
 	}
 	var bs []sup.Batch
 	exhBatches := 16
@@ -71,7 +71,7 @@ func run(c *sup.Child, b sup.Batch) {
 				return
 			}
 			runPlan(r, p)
-			if r.Inconclusive != "" || hasClass(r, "close-never-returns") {
+			if r.Inconclusive != "" || r.Obs["watchdog_expired"] > 0 {
 				stuck = true
 			}
 			if sample && len(r.Violations) == 0 {
@@ -97,15 +97,6 @@ func run(c *sup.Child, b sup.Batch) {
 			runOne(idx, "random", &p, idx%800 == 0)
 		}
 	}
-}
-
-func hasClass(r *sup.CaseResult, class string) bool {
-	for _, v := range r.Violations {
-		if v.Class == class {
-			return true
-		}
-	}
-	return false
 }
 
 func main() {
